@@ -507,18 +507,48 @@ func WohMutations(wh *types.WorkObjectHeader, loc common.Location) []WohMutation
 // ---- WorkObject and friends --------------------------------------------------------------------
 
 func Manifest(t *rapid.T, label string) types.BlockManifest {
-	return types.BlockManifest(Hashes(t, label, 4))
+	m := types.BlockManifest(Hashes(t, label, 4))
+	// now and then a long manifest (a region block lists every zone block since the last one)
+	if len(m) > 0 && rapid.IntRange(0, 15).Draw(t, label+"_long") == 0 {
+		n := rapid.SampledFrom([]int{63, 64, 127, 128, 129, 255, 256, 300}).Draw(t, label+"_longN")
+		for i := len(m); i < n; i++ {
+			h := m[i%4%len(m)]
+			h[0], h[1], h[31] = byte(i), byte(i>>8), ^byte(i)
+			m = append(m, h)
+		}
+	}
+	return m
 }
 
 // Uncles are work object headers (workshares / uncles) of the same regime mix as blocks.
 func Uncles(t *rapid.T, label string, loc common.Location, max int, g *Tags) []*types.WorkObjectHeader {
 	n := rapid.IntRange(0, max).Draw(t, label+"_n")
+	// the protocol bounds the list (16 shares, 32 after a fork): now and then a list around
+	// those bounds; the encoders themselves have no bound
+	many := 0
+	if rapid.IntRange(0, 11).Draw(t, label+"_many") == 0 {
+		many = rapid.SampledFrom([]int{15, 16, 17, 31, 32, 33, 40}).Draw(t, label+"_manyN")
+		if n == 0 {
+			n = 1
+		}
+	}
 	out := make([]*types.WorkObjectHeader, n)
 	for i := range out {
 		out[i] = WorkObjectHeader(t, fmt.Sprintf("%s%d", label, i), loc, WoOpts{Regime: AnyRegime, AuxPow: -1}, nil)
 	}
-	if n > 0 {
+	// the rest of a long list: copies of the drawn entries told apart by their nonce
+	for i := n; i < many; i++ {
+		c := types.CopyWorkObjectHeader(out[i%n])
+		var nonce types.BlockNonce
+		nonce[0], nonce[7] = byte(i), byte(i>>3)+1
+		c.SetNonce(nonce)
+		out = append(out, c)
+	}
+	if len(out) > 0 {
 		g.Add("wo:uncles")
+	}
+	if len(out) > 16 {
+		g.Add("wo:uncles>16")
 	}
 	return out
 }
